@@ -20,6 +20,10 @@ def run_one(patch, checks, suite=False, tier="quick"):
     a = sh(f"git -C /repo apply {patch}")
     if a.returncode != 0:
         res["error"] = "patch does not apply: " + a.stderr[-300:]; return res
+    # evidence files are rewritten by every run: keep the clean-tree ones aside and put them back
+    import shutil, tempfile
+    keep = tempfile.mkdtemp(prefix="evidence-keep-", dir=f"{ROOT}/logs")
+    shutil.copytree(f"{ROOT}/evidence", f"{keep}/evidence")
     try:
         if suite:
             t = sh("cd /repo && cargo test --workspace --no-fail-fast --offline 2>&1 | grep -E '^test result|FAILED|panicked' | head")
@@ -33,6 +37,9 @@ def run_one(patch, checks, suite=False, tier="quick"):
                                     machinery=[l for l in r.stdout.splitlines() if l.startswith("MACHINERY")][:1])
     finally:
         sh(f"git -C /repo apply -R {patch}")
+        shutil.rmtree(f"{ROOT}/evidence", ignore_errors=True)
+        shutil.copytree(f"{keep}/evidence", f"{ROOT}/evidence")
+        shutil.rmtree(keep, ignore_errors=True)
         left = clean()
         if left: res["warning"] = "repo not clean after restore: " + left
     return res
